@@ -138,7 +138,13 @@ func VerifC11DropRaw() {
 	in2 := stats.Counter("unit=Metric.direction=in.aggregator=" + a2.Key)
 	c1, c2 := in1.Count(), in2.Count()
 	name := verifName(1 + verifChoice("namelen", 3))
-	line := append(append([]byte{}, name...), []byte(" 1 1499999995")...)
+	// param "ts": the point's timestamp (default: inside the open window; "1499999900": its bucket is already past
+	// the wait window on the aggregation's clock -- a late point is consumed all the same when the filter matches)
+	tsTok := "1499999995"
+	if p := verifParam("ts"); p != "" {
+		tsTok = p
+	}
+	line := append(append([]byte{}, name...), []byte(" 1 "+tsTok)...)
 	t.Dispatch(line)
 	verifSettle()
 	consumed := true
